@@ -376,7 +376,7 @@ void h_map_compare(void)
 }
 
 /* -------------------------------------------------------------- descriptors */
-#ifdef H_DESCRIPTOR
+#if defined(H_DESCRIPTOR) || defined(H_EXPORT)
 #ifndef VERIF_NATIVE
 /* ASSUMED CONTRACT: vasprintf for the conversions the library's own descriptors use: %s and %d (0..99) */
 int vasprintf(char **strp, const char *fmt, va_list ap)
@@ -613,6 +613,113 @@ void h_descriptor(void)
     (void)vnaproperty_delete(&root, ".");
     CHECK(root == NULL, "deleting the root empties the tree");
     /* --memory-leak-check */
+}
+#endif
+
+#ifdef H_EXPORT
+/*
+ * The YAML exporter used by vnacal_save / vnadata_save for property trees,
+ * against the pairing contract with the importer: the importer hands every
+ * mapping key to the descriptor parser, so the exporter must write each key
+ * in the quoted form that, read as a descriptor, addresses exactly that key
+ * (vnaproperty_quote_key).  libyaml's document functions are a RECORDING
+ * model (assumed contract: the document is the tree of the add/append calls).
+ */
+#define XN 12
+#define XT 16
+static struct { int kind; char text[XT]; int nchild; int child[6]; } xnode[XN + 1];
+static int xnodes;
+
+static int x_new(int kind)
+{
+    CHECK(xnodes < XN, "infra: document model too small");
+    if (xnodes >= XN)
+	return 0;
+    ++xnodes;
+    xnode[xnodes].kind = kind;
+    xnode[xnodes].nchild = 0;
+    xnode[xnodes].text[0] = 0;
+    return xnodes;
+}
+int yaml_document_add_scalar(yaml_document_t *document, const yaml_char_t *tag,
+	const yaml_char_t *value, int length, yaml_scalar_style_t style)
+{
+    int id = x_new(1);
+
+    (void)document; (void)tag; (void)style;
+    if (id != 0) {
+	for (int i = 0; i < XT - 1; ++i) {
+	    if (i >= length)
+		break;
+	    xnode[id].text[i] = (char)value[i];
+	    xnode[id].text[i + 1] = 0;
+	}
+    }
+    return id;
+}
+int yaml_document_add_sequence(yaml_document_t *document, const yaml_char_t *tag, yaml_sequence_style_t style)
+{
+    (void)document; (void)tag; (void)style;
+    return x_new(2);
+}
+int yaml_document_add_mapping(yaml_document_t *document, const yaml_char_t *tag, yaml_mapping_style_t style)
+{
+    (void)document; (void)tag; (void)style;
+    return x_new(3);
+}
+int yaml_document_append_sequence_item(yaml_document_t *document, int sequence, int item)
+{
+    (void)document;
+    CHECK(sequence >= 1 && sequence <= xnodes && xnode[sequence].kind == 2 && item >= 1 && item <= xnodes &&
+	    xnode[sequence].nchild < 6, "append_sequence_item: nodes of this document");
+    xnode[sequence].child[xnode[sequence].nchild++] = item;
+    return 1;
+}
+int yaml_document_append_mapping_pair(yaml_document_t *document, int mapping, int key, int value)
+{
+    (void)document;
+    CHECK(mapping >= 1 && mapping <= xnodes && xnode[mapping].kind == 3 && key >= 1 && key <= xnodes &&
+	    value >= 1 && value <= xnodes && xnode[mapping].nchild + 1 < 6, "append_mapping_pair: nodes of this document");
+    xnode[mapping].child[xnode[mapping].nchild++] = key;
+    xnode[mapping].child[xnode[mapping].nchild++] = value;
+    return 1;
+}
+
+void h_export_keys(void)
+{
+    vnaproperty_t *root = NULL;
+    vnaproperty_yaml_t vyml;
+    yaml_document_t *doc = malloc(1);		/* opaque to the code under test */
+    const char *v;
+    char *q;
+    int id, k0, v0, k1, v1;
+
+    ASSUME(doc != NULL);
+    CHECK(vnaproperty_set(&root, "a\\.b=v") == 0, "a key with a dot can be set when quoted");
+    CHECK(vnaproperty_set(&root, "plain=w") == 0, "a plain key");
+    (void)memset((void *)&vyml, 0, sizeof(vyml));
+    vyml.vyml_document = doc;
+    vyml.vyml_filename = "f";
+    xnodes = 0;
+    id = _vnaproperty_yaml_export(&vyml, root);
+    REACH("export returned");
+    CHECK(id >= 1 && id <= xnodes && xnode[id].kind == 3 && xnode[id].nchild == 4,
+	    "the map is exported as one mapping with a pair per key");
+    k0 = xnode[id].child[0]; v0 = xnode[id].child[1];
+    k1 = xnode[id].child[2]; v1 = xnode[id].child[3];
+    CHECK(xnode[k0].kind == 1 && xnode[v0].kind == 1 && str_eq(xnode[v0].text, "v") &&
+	    xnode[k1].kind == 1 && xnode[v1].kind == 1 && str_eq(xnode[v1].text, "w"), "keys and values are scalars, in insertion order");
+    q = vnaproperty_quote_key("a.b");
+    CHECK(q != NULL && str_eq(xnode[k0].text, q), "a key is written in its quoted form (what the importer's descriptor parser needs)");
+    free(q);
+    CHECK(str_eq(xnode[k1].text, "plain"), "a key that needs no quoting is written as it is");
+    /* the pairing itself: read back as a descriptor, the written key addresses the same entry */
+    v = vnaproperty_get(root, "%s", xnode[k0].text);
+    CHECK(v != NULL && str_eq(v, "v"), "the written key, used as a descriptor, finds that key's value");
+    CHECK(vnaproperty_count(root, ".") == 2, "exporting changes nothing");
+    free(doc);
+    (void)vnaproperty_delete(&root, ".");
+    /* --memory-leak-check: the exporter frees its key vector and quoted keys */
 }
 #endif
 
